@@ -18,7 +18,8 @@ RULE = ('Markov-structured micro trajectories (2..7 microstates quick, ..8 thoro
         'exact rational Hummer-Szabo matrix (1e-8), labels, refusal; on the implementation output rows '
         'sum to one (1e-10), aggregated equilibrium stationary (1e-8), non-negativity for positive=True. '
         'Non-trivial: >= 3 microstates and a non-identity lumping.'
-        ' Added classes: bad lumpings of driven ring walks (raw projection with negative and > 1 entries in one row), irreducible periodic micro chains (must be refused), the same lumped object estimated at other lag times first, arrays handed out by the object overwritten before the estimate.')
+        ' Added classes: bad lumpings of driven ring walks (raw projection with negative and > 1 entries in one row), irreducible periodic micro chains (must be refused), the same lumped object estimated at other lag times first, arrays handed out by the object overwritten before the estimate.'
+        ' Later: a state that appears two frames before the end (ergodic at one lag, refused at another; both asked on one object), narrow micro types with macro labels outside them, snippets of lag+1 frames.')
 TRUSTED = ['LAPACK inv / eig inside the implementation (compared within 1e-8)',
            'the run-time certificates (K*Z = Z*K = I, N*M = M*N = I) are kept, but are now redundant: existence of both '
            'inverses and of the stationary vector on ergodic input is proved (hs_total_on_ergodic_input)']
